@@ -13,6 +13,8 @@ use simkit::exec;
 pub struct SpyLog {
     pub measurements: Vec<Measurement>,
     pub usable: Vec<bool>,
+    /// what the controller had last been told about usability when each measurement arrived
+    pub told_at: Vec<Option<bool>>,
     pub desired_poll: u8,
 }
 
@@ -25,6 +27,7 @@ impl Spy {
         Spy(Arc::new(Mutex::new(SpyLog {
             measurements: vec![],
             usable: vec![],
+            told_at: vec![],
             desired_poll,
         })))
     }
@@ -34,6 +37,9 @@ impl Spy {
     }
     pub fn last_usable(&self) -> Option<bool> {
         self.0.lock().unwrap().usable.last().copied()
+    }
+    pub fn told_at(&self, i: usize) -> Option<bool> {
+        self.0.lock().unwrap().told_at[i]
     }
     pub fn measurement(&self, i: usize) -> Measurement {
         self.0.lock().unwrap().measurements[i]
@@ -45,7 +51,10 @@ impl Spy {
 
 impl SourceController for Spy {
     fn handle_measurement(&mut self, measurement: Measurement) {
-        self.0.lock().unwrap().measurements.push(measurement);
+        let mut l = self.0.lock().unwrap();
+        let told = l.usable.last().copied();
+        l.told_at.push(told);
+        l.measurements.push(measurement);
     }
     fn set_usable(&mut self, usable: bool) {
         self.0.lock().unwrap().usable.push(usable);
